@@ -1287,3 +1287,161 @@ Proof.
     unfold outcome_answer; destruct o; [apply nab_panic|apply nab_ret; exact I].
 Qed.
 End DynWalk.
+
+(* ---- the end-to-end corollaries for the six kinds *)
+From Crusta Require Import Proofs.DynDefs Proofs.DynProofs Proofs.DynFunDefs Proofs.DynInv Proofs.DynFun Proofs.DynTotal
+  Proofs.DynPref Proofs.DynAttSafe Proofs.DynAttFun Proofs.DynCalls Proofs.DummyTop Proofs.GroundedProofs.
+
+Section DynFinal.
+Variable L : Type.
+Variable leqb : L -> L -> bool.
+Hypothesis leqb_spec : forall x y, leqb x y = true <-> x = y.
+
+Notation fresh := (DynDefs.fresh_fw L leqb).
+Notation run_ops := (Store.run_ops L leqb).
+Notation spos := (spos L).
+
+Lemma tbl_nil id : tbl_var [] id = None.
+Proof. destruct id; reflexivity. Qed.
+Lemma dyn_new_good k ps0 s ps : dyn_new L leqb k ps0 = Done s ps ->
+  spos s /\ (DynProofs.not_dummy k -> Iok ps) /\ (Iok ps0 -> Iok ps).
+Proof.
+  assert (E0 : forall sm b, epos (enc_enable (enc_new sm) b)).
+  { intros sm b. unfold epos, enc_enable, enc_new. cbn [e_a2v e_a2s e_assum].
+    repeat split; try (intros id v H; rewrite tbl_nil in H; discriminate H). }
+  assert (A0 : forall sm n d, apos (aenc_new sm n d)).
+  { intros sm n d. unfold apos, aenc_new. cbn [a_a2v a_need]. split; [intros id v H; rewrite tbl_nil in H; discriminate H|discriminate]. }
+  unfold dyn_new, bind, new_solver, ret. intros H.
+  destruct k; injection H as <- <-; unfold OracleGlue.spos; cbn [s_buf b_enc xpos];
+    (split; [first [apply E0|apply A0|exact (E0 DCO true)]|]); split; intros; try reflexivity; try contradiction; assumption.
+Qed.
+Lemma dyn_update_enc (s : dsolver L) o : b_enc L (s_buf L (fst (dyn_update L leqb s o))) = b_enc L (s_buf L s).
+Proof.
+  unfold dyn_update. pose proof (buf_update_spec L leqb (s_buf L s) o) as Hb. cbv zeta in Hb.
+  destruct Hb as (_ & _ & _ & Hen & _).
+  destruct (s_kind L s); try (destruct (buf_update L leqb (s_buf L s) o); cbn [fst snd s_buf] in *; exact Hen).
+  destruct (step L leqb (s_af L s) o). reflexivity.
+Qed.
+
+Lemma vreach_good thr k s ps os : vreach L leqb dpll_oracle thr k s ps os -> DynProofs.not_dummy k -> spos s /\ Iok ps.
+Proof.
+  induction 1 as [ps0 s ps Hn|s ps os o Hr IH|s ps os fuel q cert l s' a ps' Hr IH Hq]; intros Hk.
+  - destruct (dyn_new_good k ps0 s ps Hn) as (H1 & H2 & _). auto.
+  - destruct (IH Hk) as [H1 H2]. split; [|exact H2]. unfold OracleGlue.spos. rewrite dyn_update_enc. exact H1.
+  - destruct (IH Hk) as [H1 H2].
+    pose proof (reach_frame_inv L leqb _ _ _ (vreach_reach L leqb _ _ _ _ _ _ Hr)) as [Hkind _ _ _].
+    assert (Hn : nab (dyn_query dpll_oracle L leqb thr fuel s q cert l) (fun r => spos (fst r))).
+    { apply nab_dyn_query; [exact H1|]. intros sm E. rewrite E in Hkind. subst k. exact (False_ind _ Hk). }
+    specialize (Hn ps H2). rewrite Hq in Hn. cbn [fst] in Hn. tauto.
+Qed.
+Lemma areach_good k s ps os : areach L leqb dpll_oracle k s ps os -> att_kind k -> spos s /\ Iok ps.
+Proof.
+  induction 1 as [ps0 s ps Hn|s ps os o Hr IH|s ps os thr fuel q cert l s' a ps' Hr IH Hq]; intros Hk.
+  - destruct (dyn_new_good k ps0 s ps Hn) as (H1 & H2 & _). split; [exact H1|]. apply H2. destruct k; try destruct Hk; exact I.
+  - destruct (IH Hk) as [H1 H2]. split; [|exact H2]. unfold OracleGlue.spos. rewrite dyn_update_enc. exact H1.
+  - destruct (IH Hk) as [H1 H2].
+    pose proof (reach_frame_inv L leqb _ _ _ (areach_reach L leqb _ _ _ _ _ Hr)) as [Hkind _ _ _].
+    assert (Hn : nab (dyn_query dpll_oracle L leqb thr fuel s q cert l) (fun r => spos (fst r))).
+    { apply nab_dyn_query; [exact H1|]. intros sm E. rewrite E in Hkind. subst k. exact (False_ind _ Hk). }
+    specialize (Hn ps H2). rewrite Hq in Hn. cbn [fst] in Hn. tauto.
+Qed.
+
+(* complete (DC) and stable (DC, DS) dynamic solvers, standard encoder: the query RETURNS the right answer *)
+Theorem std_unconditional thr k s ps os fuel q cert l id :
+  vreach L leqb dpll_oracle thr k s ps os ->
+  (k = KCo /\ q = QDC) \/ (k = KSt /\ (q = QDC \/ q = QDS)) ->
+  get_argument L leqb (run_ops fresh os) l = Some id ->
+  exists s' b c ps', dyn_query dpll_oracle L leqb thr fuel s q cert l ps = Done (s', (b, c)) ps' /\
+    DynFun.answer_ok (DynFun.sem_of k) (DynFun.qpol q) cert (CompProofs.af_of (run_ops fresh os)) id (b, c).
+Proof.
+  intros Hv Hkq Hl.
+  pose proof (dyn_functional_run L leqb leqb_spec dpll_oracle thr k s ps os fuel q cert l id dpll_oracle_valid Hv Hkq Hl) as Hr.
+  assert (Hnd : DynProofs.not_dummy k) by (destruct Hkq as [[-> _]|[-> _]]; exact I).
+  destruct (vreach_good thr k s ps os Hv Hnd) as [H1 H2].
+  pose proof (reach_frame_inv L leqb _ _ _ (vreach_reach L leqb _ _ _ _ _ _ Hv)) as [Hkind _ _ _].
+  assert (Hn : nab (dyn_query dpll_oracle L leqb thr fuel s q cert l) (fun r => spos (fst r))).
+  { apply nab_dyn_query; [exact H1|]. intros sm E. rewrite E in Hkind. subst k. exact (False_ind _ Hnd). }
+  specialize (Hn ps H2).
+  destruct (dyn_query dpll_oracle L leqb thr fuel s q cert l ps) as [[s' [b c]] ps'|ps'|ps'|ps']; try contradiction.
+  exists s', b, c, ps'. auto.
+Qed.
+
+(* the dynamic preferred solver (DS), with fuel at least the bound of the search *)
+Theorem pr_unconditional thr s ps os fuel cert l id :
+  vreach L leqb dpll_oracle thr KPr s ps os ->
+  get_argument L leqb (run_ops fresh os) l = Some id ->
+  DynPref.pr_dyn_bound L (run_ops fresh os) <= fuel ->
+  exists s' b c ps', dyn_query dpll_oracle L leqb thr fuel s QDS cert l ps = Done (s', (b, c)) ps' /\
+    DynFun.answer_ok PR false cert (CompProofs.af_of (run_ops fresh os)) id (b, c).
+Proof.
+  intros Hv Hl Hf.
+  pose proof (pr_functional_run L leqb leqb_spec dpll_oracle dpll_oracle_valid thr s ps os fuel cert l id Hv Hl) as Hr.
+  destruct (vreach_good thr KPr s ps os Hv I) as [H1 H2].
+  pose proof (reach_frame_inv L leqb _ _ _ (vreach_reach L leqb _ _ _ _ _ _ Hv)) as [Hkind _ _ _].
+  assert (Hn : nab (dyn_query dpll_oracle L leqb thr fuel s QDS cert l) (fun r => spos (fst r))).
+  { apply nab_dyn_query; [exact H1|]. intros sm E. rewrite Hkind in E. discriminate E. }
+  specialize (Hn ps H2).
+  destruct (dyn_query dpll_oracle L leqb thr fuel s QDS cert l ps) as [[s' [b c]] ps'|ps'|ps'|ps']; try contradiction.
+  - exists s', b, c, ps'. auto.
+  - exfalso. lia.
+Qed.
+
+(* the two solvers with assumptions on attacks *)
+Theorem att_unconditional k s ps os thr fuel q cert l id :
+  areach L leqb dpll_oracle k s ps os -> att_kind k -> factor_ok k -> att_supported k q ->
+  get_argument L leqb (run_ops fresh os) l = Some id ->
+  exists s' a ps', dyn_query dpll_oracle L leqb thr fuel s q cert l ps = Done (s', a) ps' /\
+    acc_spec (kind_spec_sem k) (query_pol q) cert (GroundedProofs.af_of L (run_ops fresh os)) [id] a /\
+    areach L leqb dpll_oracle k s' ps' os.
+Proof.
+  intros Hr Hk Hf Hs Hl.
+  pose proof (att_query_total L leqb leqb_spec dpll_oracle k s ps os thr fuel q cert l id dpll_oracle_valid Hr Hk Hf Hs Hl) as Ht.
+  destruct (areach_good k s ps os Hr Hk) as [H1 H2].
+  pose proof (reach_frame_inv L leqb _ _ _ (areach_reach L leqb _ _ _ _ _ Hr)) as [Hkind _ _ _].
+  assert (Hn : nab (dyn_query dpll_oracle L leqb thr fuel s q cert l) (fun r => spos (fst r))).
+  { apply nab_dyn_query; [exact H1|]. intros sm E. rewrite E in Hkind. subst k. exact (False_ind _ Hk). }
+  specialize (Hn ps H2).
+  assert (Hc : one_call_kind (s_kind L s)) by (rewrite Hkind; destruct k; try destruct Hk; exact I).
+  pose proof (dyn_query_calls L leqb dpll_oracle thr fuel s q cert l ps Hc) as Hof.
+  destruct (dyn_query dpll_oracle L leqb thr fuel s q cert l ps) as [[s' a] ps'|ps'|ps'|ps']; try contradiction.
+  exists s', a, ps'. tauto.
+Qed.
+
+(* the recompute wrapper: from any program state whose session holds well-formed clauses *)
+Theorem dummy_unconditional sm s os thr fuel q cert l id ps :
+  DynDefs.reach L leqb (KDummy sm) s os -> 1 <= thr ->
+  q <> QSE -> supported sm q -> enc_ok sm AuxCo ->
+  get_argument L leqb (run_ops fresh os) l = Some id ->
+  fuel_ok sm AuxCo (query_comps sm q cert (view_of_fw (run_ops fresh os)) [id]) fuel ->
+  cnf_ok (rclauses (sess ps)) = true ->
+  exists a ps', dyn_query dpll_oracle L leqb thr fuel s q cert l ps = Done (s, a) ps' /\
+    acc_spec sm (SolverTop.qpol q) cert (GroundedProofs.af_of L (run_ops fresh os)) [id] a /\
+    calls ps' <= calls ps + total_bound sm AuxCo (query_comps sm q cert (view_of_fw (run_ops fresh os)) [id]) /\
+    cnf_ok (rclauses (sess ps')) = true.
+Proof.
+  intros Hr Ht Hq Hs He Hl Hf H0.
+  pose proof (dummy_query_correct L leqb leqb_spec sm s os Hr dpll_oracle thr fuel q cert l id ps
+                dpll_oracle_valid Ht (conj Hq (conj Hs He)) Hl) as R. cbv zeta in R.
+  pose proof (DynProofs.reach_frame_inv L leqb _ s os Hr) as [Hk _ _ _].
+  pose proof (DynProofs.dummy_framework L leqb sm s os Hr) as Haf.
+  pose proof (view_good_store L leqb leqb_spec (run_ops fresh os) (history_reachable L leqb os)) as Hvg.
+  assert (Hsp : spos s \/ True) by (right; exact I).
+  assert (Hn : nab (dyn_query dpll_oracle L leqb thr fuel s q cert l) (fun _ => True)).
+  { unfold dyn_query. rewrite Hk.
+    assert (G : nab (id0 <- opt_m (get_argument L leqb (s_af L s) l) ;;
+                     o <- run_query dpll_oracle thr fuel sm q cert AuxCo (view_of_fw (s_af L s)) [id0] ;;
+                     a <- outcome_answer o ;; ret (s, a)) (fun _ => True)).
+    { eapply nab_bind; [apply nab_opt_m|]. intros id0 Hid0. rewrite Haf in *.
+      eapply nab_bind.
+      { apply (nab_run_query thr Ht); [exact (good_view_allgood _ _ Hvg)|]. intros _.
+        apply (good_view_mgood _ _ [id0] Hvg). intros x [<-|[]]. exact (get_argument_arg L leqb leqb_spec os l id0 Hid0). }
+      intros o _. eapply (nab_bind _ _ (fun _ => True)); [|intros a _; apply nab_ret; exact I].
+      unfold outcome_answer. destruct o; [apply nab_panic|apply nab_ret; exact I]. }
+    destruct q; [congruence|exact G|exact G]. }
+  specialize (Hn ps H0). unfold run_ok in R.
+  destruct (dyn_query dpll_oracle L leqb thr fuel s q cert l ps) as [[s' a] ps'|ps'|ps'|ps']; try contradiction.
+  - destruct R as [[R1 R2] R3]. cbn [fst snd] in R1, R2. subst s'. exists a, ps'. tauto.
+  - destruct R as [_ R]. exfalso. exact (R Hf).
+Qed.
+
+End DynFinal.
